@@ -537,6 +537,14 @@ func validSchemaWire(r *Run, kind string) []byte {
 				m["enum"] = "only"
 			}
 		case "uuid":
+			switch rng.Intn(6) {
+			case 0: // an enum of one uuid, in both of its spellings, and of two
+				m["enum"] = []interface{}{"uuid", uuidPool[1]}
+			case 1:
+				m["enum"] = []interface{}{"set", []interface{}{[]interface{}{"uuid", uuidPool[2]}}}
+			case 2:
+				m["enum"] = []interface{}{"set", []interface{}{[]interface{}{"uuid", uuidPool[1]}, []interface{}{"uuid", uuidPool[2]}}}
+			}
 			if rng.Intn(2) == 0 {
 				m["refTable"] = "T"
 				if rng.Intn(2) == 0 {
